@@ -25,10 +25,11 @@ const (
 	cSetIdentity
 	cRawHeads
 	cJoinBounded
+	cIterStream
 	cNumOps
 )
 
-var copNames = []string{"Append", "Join", "Values", "Heads", "GetEntries", "Get/Has", "Len", "ToSnapshot", "ToJSONLog", "ToMultihash", "Iterator", "SetIdentity", "RawHeads", "Join(size)"}
+var copNames = []string{"Append", "Join", "Values", "Heads", "GetEntries", "Get/Has", "Len", "ToSnapshot", "ToJSONLog", "ToMultihash", "Iterator", "SetIdentity", "RawHeads", "Join(size)", "Iterator(streamed)"}
 
 type copResult struct {
 	op      int
@@ -76,6 +77,26 @@ func runCop(h *hist, L *ipfslog.IPFSLog, other *ipfslog.IPFSLog, op int, g int, 
 		res.err = L.Iterator(&ipfslog.IteratorOptions{}, ch)
 		res.values, _ = drain(ch, 16)
 		res.values = reverseEntries(res.values)
+	case cIterStream:
+		// an unbuffered output: the iterator hands over one entry at a time to a consumer that itself uses the
+		// log between two receives (reads it, and appends once) - streaming must not hold the log's lock
+		ch := make(chan iface.IPFSLogEntry)
+		cdone := make(chan struct{})
+		go func() {
+			first := true
+			for e := range ch {
+				res.values = append(res.values, e)
+				L.Has(e.GetHash())
+				if first {
+					first = false
+					L.Append(ctx, []byte{'s', byte('0' + g)}, nil)
+				}
+			}
+			close(cdone)
+		}()
+		res.err = L.Iterator(&ipfslog.IteratorOptions{}, ch)
+		<-cdone
+		res.values = reverseEntries(res.values)
 	case cSetIdentity:
 		L.SetIdentity(h.ids[(g+1)%h.cfg.W])
 	case cRawHeads:
@@ -96,8 +117,13 @@ func H_C13() {
 	L, other := h.logs[0], h.logs[1]
 	G := vx.Param("G", 2)
 	ops := make([]int, G)
+	stream := vx.Param("STREAM", 0) == 1 // the last operation is the streamed iterator (a run of its own: it adds a consumer goroutine)
 	for g := range ops {
-		ops[g] = vx.Choice("cop", cNumOps)
+		if stream && g == G-1 {
+			ops[g] = cIterStream
+			continue
+		}
+		ops[g] = vx.Choice("cop", cNumOps-1)
 		if g > 0 {
 			vx.Assume(ops[g-1] <= ops[g]) // unordered combinations
 		}
@@ -166,7 +192,7 @@ func H_C13() {
 			if r.err == nil && !bounded {
 				vx.Assert("C13", subset(hashSet(entriesOf(other)), fset), "a successful concurrent merge added the other log's entries")
 			}
-		case cValues, cSnapshot, cIterator:
+		case cValues, cSnapshot, cIterator, cIterStream:
 			v := r.values
 			vx.Assert("C13", len(hashSet(v)) == len(v), "a concurrent read of the values has no duplicate")
 			if !bounded {
